@@ -53,7 +53,7 @@ fn main() {
         let mut rng = case_rng(args.seed, i);
         let mut a_ex = Impl::new(); // under test: receives only the steps
         let mut b_ex = Impl::new(); // receives the steps and the probes
-        let mut g = Gen { rng: &mut rng, now: 0, deadlines: vec![], lens: vec![], hot: false, state: vec![], pending: vec![] };
+        let mut g = Gen { rng: &mut rng, now: 0, deadlines: vec![], lens: vec![], hot: false, state: vec![], pending: vec![], stale: vec![] };
         // 60 % of the sequences start from a populated keyspace (every type, short collections, TTLs)
         if g.chance(0.6) { let mut p = g.prelude(); p.reverse(); g.pending = p; }
         let nsteps = g.rng.gen_range(8..=maxsteps.max(8));
@@ -67,7 +67,11 @@ fn main() {
             let tick = g.pending.is_empty() && g.chance(0.25);
             if tick {
                 let t = g.now + g.delta();
-                let ra = a_ex.set_time(t); let rb = b_ex.set_time(t);
+                // a third of the clock moves skip the eviction sweep (update_time_readonly): the executor under test then holds
+                // lazily expired keys, which must be unobservable (the model knows only one kind of clock move)
+                let lazy = g.chance(0.35);
+                let (ra, rb) = if lazy { (a_ex.set_time_lazy(t), b_ex.set_time_lazy(t)) } else { (a_ex.set_time(t), b_ex.set_time(t)) };
+                if lazy { out.count("step:tick-without-eviction-sweep"); }
                 let snap = if ra.is_ok() && rb.is_ok() { snapshot(&mut b_ex, &KEYS) } else { Err(ra.err().or(rb.err()).unwrap()) };
                 let snap = match snap { Ok(s) => s, Err(p) => {
                     viol(&mut out, &mut vseen, "panic-set-time", i, "the implementation panicked when the clock was set", json!({"clock": t, "panic": p, "steps_before": trace}));
